@@ -18,7 +18,7 @@ func init() {
 		fds := funcDecls(p)
 		main := fds["main"]
 		g.pf("def mainBody : String :=\n  %s\n\n", leanStr(canonFunc(p, main)))
-		var regexes, suffixes []string
+		var regexes, suffixes, prefixes []string
 		if main != nil {
 			ast.Inspect(main.Body, func(n ast.Node) bool {
 				call, ok := n.(*ast.CallExpr)
@@ -42,12 +42,15 @@ func init() {
 					regexes = append(regexes, v)
 				case "HasSuffix":
 					suffixes = append(suffixes, v)
+				case "HasPrefix":
+					prefixes = append(prefixes, v)
 				}
 				return true
 			})
 		}
 		g.pf("/-- literals passed to regexp.MustCompile, in source order (coq mode, go mode) -/\ndef regexes : List String := %s\n\n", leanStrList(regexes))
 		g.pf("/-- literals passed to strings.HasSuffix, in source order (coq mode's filter, then go mode's) -/\ndef suffixFilters : List String := %s\n\n", leanStrList(suffixes))
+		g.pf("/-- literals passed to strings.HasPrefix, in source order -/\ndef prefixFilters : List String := %s\n\n", leanStrList(prefixes))
 		var consts [][2]string
 		for _, d := range pkgDecls(p) {
 			if len(d[0]) > 6 && d[0][:6] == "const " {
